@@ -31,8 +31,9 @@ ASSUMPTIONS = ["cgranges is not installed: the pure-Python branch `_query_by_pos
                "collisions are not explored)",
                "variant collections do not overlap genes / feature collections of the same collection (variant "
                "incorporation at construction time is C13's subject and fails on many overlapping layouts)",
-               "whole-chromosome and chunk parents come from seq_to_parent / seq_chunk_to_parent (plus strand); such "
-               "collections take their bounds from the parent (no explicit start=/end=)",
+               "whole-chromosome and chunk parents come from seq_to_parent / seq_chunk_to_parent (plus strand); "
+               "collections take their bounds from the parent or carry explicit start=/end= (any relation to the "
+               "sequence; sources the constructor refuses are answered n/a by the specification)",
                "id lists are sets in the property; lists with a repeated id are compared with the model only"]
 
 G = "ACGTTGCAAGCTGATTCCAG"          # no short period: a shifted or shortened slice is visible
@@ -114,6 +115,41 @@ def parents_for(rng, L, all_windows=False, n_windows=2):
     if not all_windows:
         wins = rng.sample(wins, min(n_windows, len(wins)))
     out += [f"K {cs} {G[cs:ce]} - -" for cs, ce in wins]
+    return out
+
+
+def bounded_parents(rng, L, n):
+    """sequence parents with EXPLICIT start=/end=: inside / equal to / wider than / partly on / off the sequence,
+    zero-length; rarely not constructible (end beyond the chromosome, start > end)"""
+    out = []
+    for _ in range(n):
+        if rng.random() < 0.4:
+            bs = rng.randint(0, L)
+            be = rng.randint(bs, L)
+            if rng.random() < 0.06:
+                be = L + rng.randint(1, 2)            # not constructible on a whole chromosome
+            if rng.random() < 0.04:
+                bs, be = be + 1, bs                   # start > end
+            out.append(f"W {G[:L]} {bs} {be}")
+        else:
+            cs = rng.randint(0, L - 1)
+            ce = rng.randint(cs + 1, L)
+            mode = rng.choice(["in", "in", "eq", "wide", "wide", "left", "right", "off", "zero"])
+            if mode == "in":
+                bs = rng.randint(cs, ce - 1); be = rng.randint(bs + 1, ce)
+            elif mode == "eq":
+                bs, be = cs, ce
+            elif mode == "wide":
+                bs = rng.randint(0, cs); be = rng.randint(ce, L + 1)
+            elif mode == "left":
+                bs = rng.randint(0, cs); be = rng.randint(cs, ce)
+            elif mode == "right":
+                bs = rng.randint(cs, ce); be = rng.randint(ce, L + 1)
+            elif mode == "off":
+                bs, be = (0, rng.randint(0, cs)) if rng.random() < 0.5 else (rng.randint(ce, L + 1), L + 2)
+            else:
+                bs = be = rng.randint(0, L)
+            out.append(f"K {cs} {G[cs:ce]} {bs} {be}")
     return out
 
 
@@ -287,10 +323,13 @@ def cases(run):
     if quick:
         wins = [(1, 3), (0, 2), (1, 2)]
     srcs1 = ["N - -", f"N 0 {L1 + 1}", f"W {G[:L1]} - -"] + [f"K {cs} {G[cs:ce]} - -" for cs, ce in wins]
+    # explicit bounds on sequence parents: narrower than / wider than / off the sequence
+    srcs1 += [f"W {G[:L1]} 1 {L1 - 1}", f"K 1 {G[1:L1]} 0 {L1 + 1}", f"K 1 {G[1:L1 - 1]} 1 {L1}", f"K 1 {G[1:2]} 2 {L1}"]
     ranges1 = all_ranges(-1, L1 + 1)
     EXHAUSTIVE_NOTE = (f"every collection of ONE child (non-coding gene, coding gene, feature collection, variant "
                        f"collection) with one grandchild [a,b), 0 <= a <= b <= {L1}, x parents {{none (bounds inferred), "
-                       f"none with bounds (0,{L1 + 1}), whole chromosome, chunk windows {wins}}} x ALL ranges "
+                       f"none with bounds (0,{L1 + 1}), whole chromosome, chunk windows {wins}, 4 sequence parents with explicit bounds (narrower / wider / partly "
+                       f"on / off the sequence)}} x ALL ranges "
                        f"start,end in [-1,{L1 + 1}] u {{None}} x all 8 (coding_only, completely_within, expand) "
                        "combinations; plus, per random collection of <= 4 children on a genome of length <= 12, ALL "
                        "ranges x all flag combinations, and all subsets of child / grandchild GUIDs and identifiers")
@@ -323,6 +362,16 @@ def cases(run):
         if rng.random() < 0.15:
             run.count("rand:(coll,parent) P")
             yield from pos_lines("P - -", coll, all_ranges(0, L), rng.sample(FLAGS, 2))
+
+    # (2b) sequence parents with explicit bounds x ALL ranges x 4 flag combinations, and the id queries
+    for i in range(8 if quick else 140):
+        L = rng.choice([6, 9, 12])
+        kids = rand_coll(rng, 0, L, nmax=3)
+        coll = enc_coll(kids)
+        for src in bounded_parents(rng, L, 2 if quick else 3):
+            run.count("explicit-bounds:(coll,parent) " + src.split()[0])
+            yield from pos_lines(src, coll, all_ranges(-1, L + 2), rng.sample(FLAGS, 4))
+            yield from id_lines(rng, src, kids, cap=16)
 
     # (3) id / guid / interval-guid / identifier queries
     n3 = 60 if quick else 900
